@@ -1376,12 +1376,13 @@ class ExtendedZoneProcessor: public ZoneProcessor {
     }
 
     /**
-     * Normalize DateTuple::minutes if its magnitude is more than 24
-     * hours.
+     * Normalize DateTuple::minutes if it is negative or at least 24 hours, so
+     * that DateTuples can be compared field by field (same as
+     * zone_specifier.py _normalize_date_tuple()).
      */
     static void normalizeDateTuple(extended::DateTuple* dt) {
       const int16_t kOneDayAsMinutes = 60 * 24;
-      if (dt->minutes <= -kOneDayAsMinutes) {
+      if (dt->minutes < 0) {
         LocalDate ld = LocalDate::forTinyComponents(
             dt->yearTiny, dt->month, dt->day);
         local_date_mutation::decrementOneDay(ld);
